@@ -168,13 +168,21 @@ func oracleBranchMachine(c *Ctx) error {
 		return fmt.Errorf("branch --list marks %q as current, HEAD names %q", cur, post.HeadBr)
 	}
 	if len(names) > 0 {
-		args := append([]string{"rev-parse", "HEAD"}, names...)
+		// `rev-parse HEAD` (in any letter case) means the current branch: a branch that is itself named
+		// "HEAD" cannot be asked for by name, so it is left out of the query
+		var query []string
+		for _, n := range names {
+			if strings.ToLower(n) != "head" {
+				query = append(query, n)
+			}
+		}
+		args := append([]string{"rev-parse", "HEAD"}, query...)
 		r = c.Goit(args...)
 		if r.Exit != 0 || r.Panic {
 			return fmt.Errorf("rev-parse failed: %s", r)
 		}
 		want := []string{post.HeadCommit()}
-		for _, n := range names {
+		for _, n := range query {
 			want = append(want, post.Branches[n])
 		}
 		if strings.TrimSuffix(r.Stdout, "\n") != strings.Join(want, "\n") {
